@@ -522,6 +522,8 @@ class Emitter(object):
             w("  typedef %s explicit_creation;" % self.lst([self.state_type(s) for s in M["explicit_creation"]]))
         if M["activate_deferred"]:
             w("  typedef int activate_deferred_events;")
+        if M.get("queue_first") and not self.mp:
+            w("  typedef int event_queue_before_deferred_queue;")      # back / back11: message queue before deferred queue
         pol = self.switch_policy(M)
         if pol != 0:
             w("  typedef msm::%s active_state_switch_policy;" % SWITCH_NAMES[pol])
@@ -1010,6 +1012,7 @@ def emit_desc(n):
             "true" if M["has_deferred"] else "false", "true" if M["has_completion"] else "false",
             "true" if M["has_blocking"] else "false", "true"))
         w("  d.machines.back().states_back = %s;" % ivec(M["states_back"]))
+        w("  d.machines.back().queue_first = %s;" % ("true" if M.get("queue_first") else "false"))
     w("  d.nleaves = %d;" % n.nleaves)
     for l in range(n.nleaves):
         w("  d.leaf_names.push_back(\"g%d\"); d.leaf_is_completion.push_back(%d);" % (l, n.leaf_is_completion[l]))
